@@ -39,8 +39,34 @@ let run mem key body ends =
   (status_txt stt, List.length files, String.concat "" (List.map file_txt files), cur_txt s, alive,
    (if rtr = [] then "-" else String.concat "," (List.rev_map tev_txt rtr)))
 let cls s = if s = "earlyeof" then "error" else s
+(* the request through the whole service (harness/C12_service.cpp) *)
+let entry_txt (f : pfile) = hex_of_bytes (f_name f) ^ "," ^ hex_of_bytes (f_filename f) ^ "," ^ hex_of_bytes (f_mime f) ^ "," ^ hex_of_bytes (List.rev (f_rdata f))
+let run_rq mode cl mp mem declared ct body =
+  let l = { content_length_limit = n_of_int cl; multipart_limit = n_of_int mp } in
+  let r = request_service l (mode = "r") ct (nat_of_int declared) body in
+  let st = int_of_n r.sv_status in
+  let filt = declared > 0 && (mode = "m" || mode = "r") in
+  let pairs = List.map (fun (k, v) -> hex_of_bytes k ^ "=" ^ hex_of_bytes v) (deliver_post r.sv_entries @ r.sv_pairs) in
+  let pairs = List.sort compare pairs in
+  let files = List.map entry_txt (deliver_files r.sv_entries) in
+  let fv = r.sv_fev in
+  let rd = List.rev_map entry_txt fv.rreadyd in
+  let is_m = mode = "m" in
+  let spilled = List.length (List.filter (fun f -> int_of_n (f_size f) > mem) (deliver_files r.sv_entries)) in
+  Printf.sprintf "rq %s P %d%s F %d%s L new=%d ready=%d%s end=%d err=%d raw=%s tmp=%d,0"
+    (if st = 0 then "none" else if st = 599 then "MODEL-FUEL" else string_of_int st)
+    (List.length pairs) (String.concat "" (List.map (fun x -> " " ^ x) pairs))
+    (List.length files) (String.concat "" (List.map (fun x -> " " ^ x) files))
+    (if is_m then int_of_n fv.n_new else 0)
+    (if is_m then List.length rd else 0) (if is_m && rd <> [] then ":" ^ String.concat ";" rd else "")
+    (if filt && st = 200 then 1 else 0) (if filt && st <> 200 then 1 else 0)
+    (hex_of_bytes (if mode = "r" && st <> 413 then r.sv_raw else []))
+    (if st = 200 then spilled else 0)
 let () = main_loop (fun toks -> match (match toks with
-    | ["mp"; a; b; c; d; _] -> ["mp"; a; b; c; d] | ["all2"; a; b; c; _] -> ["all2"; a; b; c] | t -> t) with
+    | ["mp"; a; b; c; d; _] -> ["mp"; a; b; c; d] | ["all2"; a; b; c; _] -> ["all2"; a; b; c]
+    | ["rq"; a; b; c; d; e; f; g; h; i; _] -> ["rq"; a; b; c; d; e; f; g; h; i] | t -> t) with
+  | ["rq"; mode; cl; mp; mem; _; declared; ct; _; body] ->
+      run_rq mode (int_of_string cl) (int_of_string mp) (int_of_string mem) (int_of_string declared) (bytes_of_hex ct) (bytes_of_hex body)
   | ["mp"; mem; ct; cuts; body] ->
       let mem = int_of_string mem in
       let body = bytes_of_hex body in
